@@ -783,3 +783,109 @@ where
         Ok(())
     }
 }
+
+#[cfg(datacake_verif)]
+/// Verification-only seams (compiled with `--cfg datacake_verif`).
+pub mod verif {
+    use std::cell::RefCell;
+    use std::collections::HashMap;
+    use std::net::SocketAddr;
+    use std::sync::Arc;
+
+    use datacake_node::{DatacakeHandle, MembershipChange, NodeId, RpcNetwork};
+    use tokio::sync::Semaphore;
+
+    pub use crate::keyspace::messages_verif::{CorruptedState, PurgeDeletes, SymDiff};
+    pub use crate::keyspace::{
+        Del,
+        Diff,
+        KeyspaceActor,
+        KeyspaceGroup,
+        LastUpdated,
+        MultiDel,
+        MultiSet,
+        Serialize,
+        Set,
+        CONSISTENCY_SOURCE_ID,
+        NUM_SOURCES,
+        READ_REPAIR_SOURCE_ID,
+    };
+    pub use crate::replication::poller_verif::{repair_cycle, RepairState};
+    use crate::replication::{TaskDistributor, TaskServiceContext};
+    pub use crate::rpc::services::consistency_impl::ConsistencyService;
+    pub use crate::rpc::services::replication_impl::ReplicationService;
+    pub use crate::rpc::{ConsistencyClient, ReplicationClient};
+    use crate::{ReplicatedStoreHandle, Storage, SystemStatistics};
+
+    thread_local! {
+        static FLUSH_GATES: RefCell<HashMap<NodeId, Arc<Semaphore>>> = RefCell::new(HashMap::new());
+    }
+
+    /// Installs a gate in front of `node`'s batch flush: each permit added to the
+    /// returned semaphore lets the distributor run exactly one batching round.
+    pub fn install_flush_gate(node: NodeId) -> Arc<Semaphore> {
+        let gate = Arc::new(Semaphore::new(0));
+        FLUSH_GATES.with(|g| g.borrow_mut().insert(node, gate.clone()));
+        gate
+    }
+
+    /// Removes every installed gate (closing them releases waiting distributors).
+    pub fn clear_flush_gates() {
+        FLUSH_GATES.with(|g| {
+            for (_, gate) in g.borrow_mut().drain() {
+                gate.close();
+            }
+        });
+    }
+
+    pub(crate) async fn flush_gate(node: NodeId) {
+        let gate = FLUSH_GATES.with(|g| g.borrow().get(&node).cloned());
+        if let Some(gate) = gate {
+            if let Ok(permit) = gate.acquire().await {
+                permit.forget();
+            }
+        }
+    }
+
+    /// The real task distributor service, started without a full store.
+    pub struct Distributor(TaskDistributor);
+
+    impl Distributor {
+        pub async fn start<S: Storage>(
+            clock: datacake_node::Clock,
+            network: RpcNetwork,
+            local_node_id: NodeId,
+            public_node_addr: SocketAddr,
+        ) -> Self {
+            let ctx = TaskServiceContext {
+                clock,
+                network,
+                local_node_id,
+                public_node_addr,
+            };
+            Self(crate::replication::start_task_distributor_service::<S>(ctx).await)
+        }
+
+        pub fn membership_change(&self, change: MembershipChange) {
+            self.0.membership_change(change)
+        }
+
+        pub fn kill(&self) {
+            self.0.kill()
+        }
+    }
+
+    /// Builds the public store handle from its parts.
+    pub fn new_store_handle<S: Storage>(
+        node: DatacakeHandle,
+        group: KeyspaceGroup<S>,
+        distributor: &Distributor,
+    ) -> ReplicatedStoreHandle<S> {
+        ReplicatedStoreHandle {
+            node,
+            group,
+            task_service: distributor.0.clone(),
+            statistics: SystemStatistics::default(),
+        }
+    }
+}
